@@ -6,14 +6,14 @@ import CfVerif.Model.C13
 namespace CfVerif.C13
 open CfVerif
 
-/-- level `c`: the three component expressions are non-negative, fit their fields, are monotone (adjacent step),
-and the timings driver uses the same expressions -/
+/-- level `c` of three component expressions: non-negative, within their 5/6/5-bit fields, monotone (adjacent step) -/
+def levelOk (fR fG fB : Int → Int) (c : Nat) : Bool :=
+  (0 ≤ fR c && fR c ≤ 31 && 0 ≤ fG c && fG c ≤ 63 && 0 ≤ fB c && fB c ≤ 31) &&
+  (c == 255 || (fR c ≤ fR (c + 1 : Nat) && fG c ≤ fG (c + 1 : Nat) && fB c ≤ fB (c + 1 : Nat)))
+
+/-- the ring driver's and (independently) the timings driver's component expressions -/
 def ledLevelOk (c : Nat) : Bool :=
-  (0 ≤ Gen.C13.ledR5 c && Gen.C13.ledR5 c ≤ 31 && 0 ≤ Gen.C13.ledG6 c && Gen.C13.ledG6 c ≤ 63 &&
-    0 ≤ Gen.C13.ledB5 c && Gen.C13.ledB5 c ≤ 31) &&
-  (c == 255 || (Gen.C13.ledR5 c ≤ Gen.C13.ledR5 (c + 1 : Nat) && Gen.C13.ledG6 c ≤ Gen.C13.ledG6 (c + 1 : Nat) &&
-    Gen.C13.ledB5 c ≤ Gen.C13.ledB5 (c + 1 : Nat))) &&
-  (Gen.C13.ledtR5 c == Gen.C13.ledR5 c && Gen.C13.ledtG6 c == Gen.C13.ledG6 c && Gen.C13.ledtB5 c == Gen.C13.ledB5 c)
+  levelOk Gen.C13.ledR5 Gen.C13.ledG6 Gen.C13.ledB5 c && levelOk Gen.C13.ledtR5 Gen.C13.ledtG6 Gen.C13.ledtB5 c
 
 /-- component value `v` at intensity `i`: the model's binary64 path `int(v * i / 100)` is plain integer division -/
 def ledScaleOk (dv v i : Nat) : Bool := scaleComp (v : Int) i dv == .ok ((v * i / dv : Nat) : Int)
